@@ -924,7 +924,11 @@ def sg_warm():
 
     # the empty-graph signature SgBackend.construct uses when there are no nodes
     extra = [(1, s[1], "float64", s[3], s[4]) for s in SG_SCHEMAS]
-    todo = list(SG_SCHEMAS) + [e for e in extra if e not in SG_SCHEMAS]
+    # written from networkx / rustworkx, a graph without edges has no edge property at all
+    extra += [(s[0], s[1], s[2], s[3], {}) for s in SG_SCHEMAS if s[4]]
+    todo = list(dict.fromkeys(
+        (a, b, c, tuple(sorted(d.items())), tuple(sorted(e.items()))) for a, b, c, d, e in list(SG_SCHEMAS) + extra))
+    todo = [(a, b, c, dict(d), dict(e)) for a, b, c, d, e in todo]
     with mp.get_context("fork").Pool(min(12, len(todo))) as pool:
         ok = all(pool.map(_warm_one, todo, chunksize=1))
     import spatial_graph as sg
@@ -1443,7 +1447,7 @@ def run(ck: common.Check):
     items = [{"G": c["G"], "tag": "corpus:" + c.get("name", "?"), **{k: c[k] for k in ("axes", "readers") if k in c}} for c in corpus() if "G" in c]
     items += [{"G": it["G"], "tag": "special:" + tag} for tag, _, it in SPECIAL]
     items += gen_exhaustive(rng)
-    nrand = 400 if ck.quick else 6000
+    nrand = 400 if ck.quick else 3500
     items += [gen_random_graph(rng) for _ in range(nrand)]
     items += [gen_random_graph(rng, nmax=8, kinds=[*KINDS, "npscalar", "npscalar", "npscalar"]) for _ in range(nrand // 4)]
     items += sg_cross_items(rng, 24 if ck.quick else 200)
